@@ -30,6 +30,7 @@ META = dict(
 )
 META["text"] += " Also (R3) a child's best_ancestor is the least-estimate ancestor at both sites that create children; (R6) bookkeeping the subsumption pass relies on: a discarded equivalent / subsumed assertion hands its rules_out to the one kept, and NEBAssertion.subsumes disposes of a ruled-out tail iff the loser outlasts the winner in it (decision table); (R7 = C14.R4) vote_for_cand, whose sums the NEN tallies are, is 1 iff the candidate stands, is ranked, and no other standing candidate is ranked before it."
 META["text"] += " R6 also covers the tree vocabulary of the search: is_descendent_of (strictly longer tail ending in the ancestor's), is_suffix, and replace_descendents (every descendant removed, from the back, then the root inserted)."
+META["text"] += " R6 also: before the search the frontier holds [d, c] for every candidate c other than the reported-winner argument and every d != c. R7 also borrows C14.R3 (the NEB predicates' tables)."
 
 
 def run(chk):
